@@ -72,6 +72,12 @@ FIXED = [
      'time to reject an unterminated string of octal escapes doubled with '
      'every escape (witness \'"\' + "\\\\00" * 30: minutes of CPU for 91 '
      'characters)'),
+    ('FX-cjk-hangul-ranges', 'C03', '785138a',
+     'CJK ideographs U+3401-4DB4, U+4E01-9FC2 and Hangul syllables '
+     'U+AC01-D7A2 rejected as identifier characters (witness "\\u4e2d ;")'),
+    ('FX-letter-numbers', 'C03', 'ad0be23',
+     'letter numbers (category Nl, e.g. U+2163, U+3007) rejected as '
+     'identifier characters (witness "\\u2163 ;")'),
     ('FX-keyword-property-c01', 'C01', '9979704',
      'pretty output "({\\n  p: a.return\\n})" rejected on re-parse'),
 ]
@@ -350,7 +356,7 @@ known('K-C03-identifier-escapes-and-joiners', 'C03',
       '`\\u0061bc` and `a\u200d` are illegal characters.',
       {'text': '\\u0061bc ;'})
 rule('K-C03-identifier-escapes-and-joiners',
-     r'^C03\|impl-rejects\|Illegal-character\|')
+     r'^C03\|impl-rejects\|Illegal-character:(backslash|joiner)\|')
 
 # ---------------------------------------------------------------- late additions
 # (signatures first seen in the thorough tiers; same root causes)
